@@ -2,6 +2,7 @@ package rules
 
 import (
 	"fmt"
+	"go/token"
 	"go/types"
 	"math/big"
 	"strings"
@@ -136,6 +137,7 @@ func runC03(c *Ctx) {
 
 	// R-C03-3 PREF64
 	c03Pref64(c)
+	c03LLA(c)
 
 	// R-C03-4 deprecated countdown shape (shared rule R-C16-1)
 	if f := c.P.Method("internal/plugin", "Prefix", "lifetimes"); f != nil {
@@ -304,4 +306,42 @@ func c03Pref64(c *Ctx) {
 		c.R.Check(ok && rg.Lo.Sign() >= 0 && rg.Hi.Cmp(hi) <= 0, "R-C03-3", c.fname(np)+":lifetime-range", c.fname(np), c.pos(fs.Store.Pos()), fmt.Sprintf("Lifetime = %s ∈ %s for max_interval ∈ [4s,1800s]", shortExpr(e), rg),
 			"within [0, 65528s]", "PREF64 lifetime does not fit the 13-bit scaled field")
 	}
+}
+
+// c03LLA (R-C03-4): the source link-layer address option is only emitted for
+// an address package ndp can encode (exactly 6 bytes): on every path of
+// LLA.Apply that appends the option, len(Addr) == 6 has been established.
+// The hardware address is system state, not configuration, so the parser
+// cannot exclude other lengths.
+func c03LLA(c *Ctx) {
+	ap := c.needMethod("R-C03-4", "internal/plugin", "LLA", "Apply")
+	if ap == nil {
+		return
+	}
+	fn := c.fname(ap)
+	n := 0
+	for _, p := range c.pathsO("R-C03-4", ap, an.PathOpts{}) {
+		emits := false
+		p.Instrs(func(in ssa.Instruction) {
+			if mi, ok := in.(*ssa.MakeInterface); ok && strings.HasSuffix(typeStr(mi.X.Type()), "ndp.LinkLayerAddress") {
+				emits = true
+			}
+		})
+		if !emits {
+			continue
+		}
+		n++
+		okLen := false
+		for _, a := range p.Atoms {
+			x, y, op, ok := effCmp(a)
+			if ok && op == token.EQL && x.Op == an.OpLen && x.Args[0].IsField("Addr") {
+				if k, isC := y.ConstInt(); isC && k == 6 {
+					okLen = true
+				}
+			}
+		}
+		c.R.Check(okLen, "R-C03-4", fn+":option-only-for-6-byte-address", fn, c.pos(ap.Pos()), fmt.Sprintf("len(Addr) == 6 established before the option is appended: %v", okLen),
+			"the option is appended only for a 6 byte hardware address", "on an interface with another hardware address length (IPoIB, IEEE 1394) the RA cannot be encoded: nothing is advertised")
+	}
+	c.R.Check(n >= 1, "R-C03-4", fn+":emitting-paths", fn, c.pos(ap.Pos()), fmt.Sprintf("%d emitting path(s)", n), ">= 1", "anchor-missing")
 }
